@@ -568,7 +568,7 @@ func TestVerif_C12_Records(t *testing.T) {
 		"0..255 PPS) with 1..3-byte units, then %d PRNG records: profile from the named profile_idc values or any byte, compatibility/level any byte, length size 1..4, 0..31 SPS and 0..255 PPS "+
 		"(80%% 0..3, 16%% up to the maximum, 4%% exactly 31/255), unit sizes from {1,2,255,256,65535} and 3..64; for profile_idc 100/110/122/144 additionally the same record with a random "+
 		"chroma/bit-depth/SPS-extension tail; distinct = (length size, SPS count class, PPS count class, high profile?, set of boundary unit sizes) parsed from the bytes the library wrote", n))
-	sweep := 256*4 + 256*4 + 256 + 32*5*4 + 256
+	sweep := 256*4 + 256*4 + 256 + 32*5*4 + 256 + 6*5*2*4
 	m.Require("evaluations", int64(sweep+n))
 	m.Require("reference_records_read", int64(sweep+n))
 	m.Require("reference_records_with_ext_read", 100)
@@ -611,6 +611,22 @@ func TestVerif_C12_Records(t *testing.T) {
 				sweeps = append(sweeps, func(r *vrand.Rand) *refavc.Record {
 					return &refavc.Record{Version: 1, Profile: r.Pick(66, 77, 88, 100, 244), Compatibility: r.Pick(0, 0xe0), Level: 40, LengthSize: ls, SPS: tiny(r, nsps, 7), PPS: tiny(r, npps, 8)}
 				})
+			}
+		}
+	}
+	// pairs of boundary values: fields that look "unset" together (profile 0 with level 0), with parameter sets long enough
+	// to carry profile/level bytes of their own (a record's fields are what it says, never what its SPS says)
+	for _, pv := range []int{0, 1, 66, 77, 100, 255} {
+		for _, lv := range []int{0, 1, 31, 51, 255} {
+			for _, cv := range []int{0, 255} {
+				for _, spsSize := range []int{1, 4, 16, 200} {
+					pv, lv, cv, spsSize := pv, lv, cv, spsSize
+					sweeps = append(sweeps, func(r *vrand.Rand) *refavc.Record {
+						sps := genNAL(r, spsSize, 7)
+						sps[0] = sps[0]&0xe0 | 7 // a real SPS header
+						return &refavc.Record{Version: 1, Profile: pv, Compatibility: cv, Level: lv, LengthSize: r.Range(1, 4), SPS: [][]byte{sps}, PPS: tiny(r, 1, 8)}
+					})
+				}
 			}
 		}
 	}
